@@ -35,11 +35,13 @@ TECHNIQUE = ("Coq proof: refinement between the checker's state (open list, sort
 LEVEL_TEXT = ("C04_iff (Coq): for every syntactically valid list of directives the repaired checker (check_proc_fixed run by "
               "process_days over builder_of's days) returns Ok iff the journal is well-formed in the property's words; "
               "C04_builder_canonical: the builder's days are the canonical order; C04_names_offender: an error carries the "
-              "account and a true reason of the first offending event; C04_zero_refuted / C04_nonAL_refuted: the pinned "
+              "account and a true reason of the first offending event; C04_order_irrelevant: acceptance is invariant under "
+              "permutations of the directive list; C04_zero_refuted / C04_nonAL_refuted: the pinned "
               "Checker.balance rejects well-formed journals (two defects).")
 LEVEL_NOTE = ("Trusted: kernel, extraction, harness; the model-to-code tie is sampled (quick ~1500 journals, thorough 200k + "
               "exhaustive small space). The theorem is about the repaired checker; against the pinned code the check reports "
-              "the two defects as violations. Invariance under reordering same-day directives of one kind is C05's.")
+              "the two defects as violations. C04_order_irrelevant: well-formedness is invariant under every permutation of the "
+              "directive list (which directive is reported first is not).")
 
 KINDS = {
     "alreadyopen": lambda l: l == "account is already open",
